@@ -5,6 +5,7 @@ import decimal
 from fractions import Fraction as F
 
 import aiohomekit.model.characteristics.characteristic as real_char
+import aiohomekit.model.services.service as real_service
 from aiohomekit.exceptions import FormatError
 
 from symx import Unit, check_property, decide, load, run_canaries
@@ -16,6 +17,7 @@ from . import common
 
 PROP = "C14"
 MOD = "aiohomekit.model.characteristics.characteristic"
+SVC = "aiohomekit.model.services.service"
 INT_FORMATS = ("uint8", "uint16", "uint32", "uint64", "int")
 
 
@@ -24,6 +26,7 @@ def copies(mutate=None):
     C = load(MOD, src_transform=mutate.get(MOD),
              patches=dict(Decimal=SymDec.make, localcontext=DM.localcontext, ROUND_HALF_UP=DM.ROUND_HALF_UP),
              builtins_extra={"float": DM.float_conv})
+    C.service_module = load(SVC, deps={MOD: C}, src_transform=mutate.get(SVC))  # Service.build_update on top of the copy
     return C
 
 
@@ -153,6 +156,34 @@ def convert_unit(M, fmt, mn, mx, step, kind, lo, hi):
             ex.observe(None)
             f = F(out)
         return ["int", int(f)] if fmt in INT_FORMATS else ["float", repr(float(f))]
+    return h
+
+
+def build_update_unit(M, real):
+    """Service.build_update prepares every value with check_convert_value - also a value equal to the one the characteristic
+    currently holds (what the accessory reported need not be a valid prepared value)"""
+    Service = real_service.Service if real else M.service_module.Service
+
+    def h(ex):
+        fmt, mn, mx, step = ex.choice("config", [("int", -100, 100, 10), ("uint8", 0, 100, 1), ("int", None, None, 5)])
+        n = ex.fresh_int("v", -300, 300)
+        stored = ex.choice("stored_value", ["the-written-value", "another-value", "none"])
+        ch = Char(fmt, mn, mx, step)
+        ch.iid = 9
+        ch._value = ch.value = {"the-written-value": n, "another-value": 7, "none": None}[stored]
+
+        class FakeService:
+            accessory = type("A", (), {"aid": 1})
+
+            def __getitem__(self, k):
+                return ch
+
+        got = Service.build_update(FakeService(), {"type": n})
+        want = M.check_convert_value(n, ch)
+        ex.tag(stored)
+        ex.require(len(got) == 1 and got[0][0] == 1 and got[0][1] == 9, "build_update: one (aid, iid, value) entry per payload item")
+        ex.require(got[0][2] == want, "build_update: the value is prepared with check_convert_value, whatever the characteristic currently holds")
+        return ex.observe("ok")
     return h
 
 
@@ -291,6 +322,10 @@ def build(tier, mutate=None):
         units.append(Unit(name, convert_unit(C, *c), convert_unit(real_char, *c), regions=regions, split=False,
                           bounds={"format": fmt, "min": str(mn), "max": str(mx), "step": str(step),
                                   "input": ("every integer" if kind == "int" else "every decimal n/10^9") + " in %s..%s" % (lo, hi)}))
+    if tier != "canary":
+        units.append(Unit("build_update/value-vs-stored-value", build_update_unit(C, False), build_update_unit(real_char, True),
+                          bounds={"written": "every integer -300..300", "stored": "equal to the written value / another / none", "configurations": 3},
+                          regions=["the-written-value", "another-value"]))
     return units
 
 
